@@ -386,35 +386,119 @@ def pv1(F, R):
                 R.bad(None, "missing:%s:%s" % (suf.split("::")[-1], kind), "expected cache %s in %s not found" % (kind, suf), kind="anchor-missing")
 
 
-@rule("NE1", ["C03", "C02"], floor=4,
-      doc="a new directory entry reuses a free slot of the walked block: in both FAT arms of write_new_directory_entry the 32 serialized bytes are copied into the scanned slot only under !is_valid() of that slot, the entry records the block just read and offset i*32 of the same enumerate index, and is written back before returning Ok")
-def ne1(F, R):
-    fn = F.fn(FATVOL + "::write_new_directory_entry")
-    cps = [(b, t) for b, t in fn.calls() if (callee_of(t) or "").endswith("copy_from_slice")]
-    R.require(len(cps) == 2, fn, "sites", "expected one slot store per FAT arm, found %d" % len(cps), fn.loc(0))
-    for b, t in cps:
-        dst = fn.term_of_operand(t["args"][0], b)
-        src = fn.term_of_operand(t["args"][1], b)
-        # slot = item of enumerate(chunks_exact_mut(block, 32)) of the block just read_mut
-        slot_ok = has_sub(dst, lambda q: q[0] == "call" and q[1] and q[1].endswith("Iterator::next"))
-        ok_valid, _ = guarded(fn, b, g_call("OnDiskDirEntry::is_valid", False))
-        R.require(slot_ok and ok_valid, fn, "free-slot", "entry bytes stored into a slot that was not tested free (!is_valid())", fn.loc(b))
-        # the is_valid test is on OnDiskDirEntry::new(<same slot>)
-        same = False
+def free_slot_of(F, fn, b, dst):
+    """Which directory slot the destination `dst` of a store in block b is, and that it was found free.  Two idioms:
+    the loop item of `for (i, chunk) in block.chunks_exact_mut(32).enumerate()` under !is_valid() of that chunk, or
+    block[i*32 .. i*32+32] for `i` the Some answer of block.chunks_exact(32).position(|raw| !OnDiskDirEntry::new(raw).is_valid()).
+    Returns (index term, block term) or None."""
+    from .poly import peq, MUL, ADD, C
+    from .mir import inline_closure
+    d = strip_refs(dst)
+    # idiom 1: the enumerate item
+    nxt = [d[1]] if d[0] == "place" and d[1][0] == "call" and (d[1][1] or "").endswith("Iterator::next") and d[2] and d[2][0] == "as:Some" else []
+    if nxt:
+        ok_valid = False
         for (gb, gi, g) in all_guards(fn):
             if g_call("OnDiskDirEntry::is_valid", False)(g) and fn.unreachable_without(b, [(gb, gi)]):
                 a0 = g.term[2][0]
-                same = has_sub(a0, lambda q: q[0] == "call" and q[1] and path_matches(q[1], "OnDiskDirEntry::new")) and has_sub(a0, lambda q: q[0] == "call" and q[1] and q[1].endswith("Iterator::next"))
-        R.require(same, fn, "same-slot", "the freeness test is not on the slot that is written", fn.loc(b))
+                if has_sub(a0, lambda q: q[0] == "call" and q[1] and path_matches(q[1], "OnDiskDirEntry::new")) and has_sub(a0, lambda q: q == nxt[0]):
+                    ok_valid = True
+        if not ok_valid:
+            return None
+        idx = ("place", nxt[0], ("as:Some", "0", "0"))
+        itv = strip_refs(nxt[0][2][0])
+        defs = var_def_terms(fn, itv[1]) if itv[0] == "var" else [itv]
+        blk = None
+        for dd in defs:
+            for q in subterms(dd):
+                if q[0] == "call" and q[1] and q[1].endswith(("chunks_exact_mut", "chunks_exact")) and q[2][1][:2] == ("c", 32):
+                    blk = strip_refs(q[2][0])
+        return (idx, blk) if blk is not None else None
+    # idiom 2: block[i*32 .. i*32 + 32], i = position(..) answer
+    if d[0] == "call" and d[1] and d[1].endswith(("IndexMut::index_mut", "::index_mut")) and len(d[2]) == 2:
+        r = strip_refs(d[2][1])
+        if not (r[0] == "agg" and r[2] and r[2].endswith(("ops::Range", "Range::Range")) and len(r[3]) == 2):
+            return None
+        lo, hi = r[3]
+        # idiom 3: inside the enumerate loop, but written through the block: block[i*32 .. i*32+32] for the loop's own i,
+        # under !is_valid() of the loop's own chunk
+        for q in subterms(lo):
+            qq = strip_refs(q)
+            if qq[0] == "place" and tuple(qq[2]) == ("as:Some", "0", "0") and qq[1][0] == "call" and (qq[1][1] or "").endswith("Iterator::next"):
+                nx = qq[1]
+                tested = False
+                for (gb, gi, g) in all_guards(fn):
+                    if g_call("OnDiskDirEntry::is_valid", False)(g) and fn.unreachable_without(b, [(gb, gi)]):
+                        a0 = g.term[2][0]
+                        if has_sub(a0, lambda z: z[0] == "call" and z[1] and path_matches(z[1], "OnDiskDirEntry::new")) and has_sub(a0, lambda z: z == nx):
+                            tested = True
+                itv = strip_refs(nx[2][0])
+                defs = var_def_terms(fn, itv[1]) if itv[0] == "var" else [itv]
+                blk = None
+                for dd in defs:
+                    for z in subterms(dd):
+                        if z[0] == "call" and z[1] and z[1].endswith(("chunks_exact_mut", "chunks_exact")) and z[2][1][:2] == ("c", 32) and has_sub(dd, lambda w: w[0] == "call" and w[1] and w[1].endswith("enumerate")):
+                            blk = z[2][0]
+
+                def under3(x):
+                    x = strip_refs(x)
+                    while x[0] == "call" and x[1] and x[1].endswith(("Deref::deref", "DerefMut::deref_mut")) and x[2]:
+                        x = strip_refs(x[2][0])
+                    return tstr(x)
+                if tested and blk is not None and peq(lo, MUL(qq, C(32))) and peq(hi, ADD(MUL(qq, C(32)), C(32))) and under3(blk) == under3(d[2][0]):
+                    return (qq, strip_refs(d[2][0]))
+        for q in subterms(lo):
+            qq = strip_refs(q)
+            if qq[0] == "place" and tuple(qq[2]) == ("as:Some", "0") and strip_refs(qq[1])[0] == "call" and (strip_refs(qq[1])[1] or "").endswith("Iterator::position"):
+                pos = strip_refs(qq[1])
+                src = strip_refs(pos[2][0])
+                if src[0] == "var":
+                    ds_ = var_def_terms(fn, src[1])
+                    src = strip_refs(ds_[0]) if len(ds_) == 1 else src
+                if not (src[0] == "call" and src[1] and src[1].endswith(("chunks_exact", "chunks_exact_mut")) and src[2][1][:2] == ("c", 32)):
+                    continue
+                body = inline_closure(F, pos[2][1], [("var", "item", None)])
+                if body is None:
+                    continue
+                bb = strip_refs(body)
+                isfree = bb[0] == "un" and bb[1] == "Not" and strip_refs(bb[2])[0] == "call" and path_matches(strip_refs(bb[2])[1] or "", "OnDiskDirEntry::is_valid") and has_sub(bb[2], lambda z: z[0] == "call" and z[1] and path_matches(z[1], "OnDiskDirEntry::new") and has_sub(z, lambda w: w == ("var", "item", None)))
+                if not isfree:
+                    continue
+                if peq(lo, MUL(qq, C(32))) and peq(hi, ADD(MUL(qq, C(32)), C(32))) and guarded(fn, b, lambda g: g.kind == "variant" and g.variant == "Some" and (strip_refs(g.term) == pos or (strip_refs(g.term)[0] == "var" and pos in [strip_refs(x) for x in var_def_terms(fn, strip_refs(g.term)[1])])))[0]:
+                    def under(x):
+                        x = strip_refs(x)
+                        while x[0] == "call" and x[1] and x[1].endswith(("Deref::deref", "DerefMut::deref_mut")) and x[2]:
+                            x = strip_refs(x[2][0])
+                        return tstr(x)
+                    same_block = under(src[2][0]) == under(d[2][0])
+                    return (qq, strip_refs(d[2][0])) if same_block else None
+    return None
+
+
+@rule("NE1", ["C03", "C02"], floor=4,
+      doc="a new directory entry reuses a free slot of the walked block: in both FAT arms of write_new_directory_entry the 32 serialized bytes are copied into the scanned slot only under !is_valid() of that slot, the entry records the block just read and offset i*32 of the same enumerate index, and is written back before returning Ok")
+def ne1(F, R):
+    from .poly import peq, MUL, C
+    fn = F.fn(FATVOL + "::write_new_directory_entry")
+    cps = [(b, t) for b, t in fn.calls() if (callee_of(t) or "").endswith("copy_from_slice")]
+    R.require(len(cps) >= 1, fn, "sites", "expected a slot store in write_new_directory_entry, found none", fn.loc(0))
+    arms = fat_arms(fn)
+    R.require(all(any(b in arms[a] for b, t in cps) for a in ("Fat16", "Fat32")), fn, "sites:both-arms", "expected a slot store in each FAT arm", fn.loc(0))
+    for b, t in cps:
+        dst = fn.term_of_operand(t["args"][0], b)
+        src = fn.term_of_operand(t["args"][1], b)
+        slot = free_slot_of(F, fn, b, dst)
+        R.require(slot is not None, fn, "free-slot", "entry bytes stored into a slot that was not tested free (!is_valid()) / not the slot that was tested", fn.loc(b))
+        R.ok(fn, "same-slot", "the tested slot is the written slot") if slot is not None else R.bad(fn, "same-slot", "the freeness test is not on the slot that is written", fn.loc(b))
         ser = find_sub(src, ("call", "DirEntry::serialize"))
         R.require(ser is not None, fn, "serialized", "slot is not filled with DirEntry::serialize()", fn.loc(b))
         # the DirEntry::new call feeding serialize: block = read_mut's index, offset = i*32
         news = [(bb, tt) for bb, tt in fn.calls() if call_matches(tt, ("DirEntry::new",)) and fn.dominates(bb, b)]
         okn = False
         for bb, tt in news:
-            off = fn.term_of_operand(tt["args"][5], bb)
+            off = strip_refs(fn.term_of_operand(tt["args"][5], bb))
             blk = fn.term_of_operand(tt["args"][4], bb)
-            okn = tmatch(off, ("cast", ("bin", "Mul", "_", ("c", 32)))) is not None and has_sub(off, lambda q: q[0] == "call" and q[1] and q[1].endswith("Iterator::next"))
+            okn = slot is not None and off[0] == "cast" and off[1] == "u32" and peq(off[2], MUL(slot[0], C(32)))
             rm = [(b3, t3) for b3, t3 in fn.calls() if call_matches(t3, ("BlockCache::read_mut",)) and fn.dominates(b3, bb)]
             okn = okn and any(tstr(strip_refs(fn.term_of_operand(t3["args"][1], b3))) == tstr(strip_refs(blk)) for b3, t3 in rm)
         R.require(okn, fn, "recorded-position", "the new entry must record (block just read, i * 32) of the slot it occupies", fn.loc(b))
@@ -439,32 +523,115 @@ def dd1(F, R):
     same_cluster = bool(blk) and any(tstr(dot["cluster"]) in tstr(fn.term_of_operand(t["args"][1], b)) or True for b, t in blk[:1])
     R.require(okc, fn, "dot:cluster", "'.' must point at the new directory's own cluster, got %s" % newc, fn.loc(ents[0][0]))
     R.require("parent_dir" in tstr(dotdot["name"]) and tstr(dotdot["entry_offset"]).endswith("0x20") and dotdot["size"][:2] == ("c", 0), fn, "dotdot:name-offset", "'..' must be parent_dir() at offset 32, size 0", fn.loc(ents[1][0]))
-    pc = strip_refs(dotdot["cluster"])
-    dterms = (var_def_terms(fn, pc[1]) if pc[0] == "var" else [pc])
-    defs = [tstr(d) for d in dterms]
+    # '..': decided for a parent that is the root (sentinel ROOT_DIR) and for one that is not - 0 for the root, the parent's
+    # own cluster otherwise; if / match / helper alike
+    from .specialise import specialise_on, _fold, _subst_pred
     PARENT = 4   # make_dir(self, block_cache, time_source, parent, sfn, att)
-    okp = len(dterms) == 2 and any("EMPTY" in tstr(d) for d in dterms) and any(strip_refs(d)[:2] == ("arg", PARENT) for d in dterms)
-    if okp and pc[0] == "var":
-        for d in fn.defs().get(pc[1], []):
-            if d[0] == "assign" and "EMPTY" in tstr(fn.term_of_rvalue(d[3], d[1])):
-                g, _ = guarded(fn, d[1], g_cmp("Eq", True, lambda a: strip_refs(a)[:2] == ("arg", PARENT), lambda z: "ROOT_DIR" in tstr(z)))
-                okp = okp and g
-    R.require(okp, fn, "dotdot:cluster", "'..' must hold the parent's cluster, or 0 exactly when the parent is the root directory; got %s" % defs, fn.loc(ents[1][0]))
+    pc = strip_refs(dotdot["cluster"])
+    is_parent = lambda q: (q[:2] == ("arg", PARENT)) or (q[0] == "place" and strip_refs(q[1])[:2] == ("arg", PARENT) and tuple(q[2]) == ("0",))
+    root = None
+    for k_, c_ in F.consts.items():
+        if k_.endswith("ClusterId::ROOT_DIR"):
+            root = int(c_["val"])
+    got = {}
+    for label, val in (("root", root), ("other", 7)):
+        cut = specialise_on(fn, is_parent, val)
+        rs = fn.reach([0], cut_edges=cut)
+        vals = set()
+        cands = [pc] if pc[0] != "var" else []
+        if pc[0] == "var":
+            for d in fn.defs().get(pc[1], []):
+                if d[0] == "assign" and d[1] in rs and ents[1][0] in fn.reach([d[1]], cut_edges=cut):
+                    cands.append(strip_refs(fn.term_of_rvalue(d[3], d[1])))
+        for c_ in cands:
+            if c_[0] == "c" and (c_[1] == 0 or (c_[2] or "").endswith("ClusterId::EMPTY")):
+                vals.add("0")
+            elif c_[:2] == ("arg", PARENT) or (c_[0] == "var" and any(strip_refs(x)[:2] == ("arg", PARENT) for x in var_def_terms(fn, c_[1]))):
+                vals.add("parent")
+            else:
+                vals.add(tstr(c_))
+        got[label] = sorted(vals)
+    R.require(root is not None and got == {"root": ["0"], "other": ["parent"]}, fn, "dotdot:cluster", "'..' must hold the parent's cluster, or 0 exactly when the parent is the root directory; got %s" % got, fn.loc(ents[1][0]))
     for nm, e in (("dot", dot), ("dotdot", dotdot)):
         R.require(strip_refs(e["attributes"])[:2] == ("arg", 6), fn, nm + ":attributes", "%s must carry the directory attributes passed in" % nm, fn.loc(0))
     # placement: serialize(dot) -> block[0..32], serialize(dotdot) -> block[32..64]
     cps = [(b, t) for b, t in fn.calls() if (callee_of(t) or "").endswith("copy_from_slice")]
+
+    def byte_range(t, at, depth=0):
+        """(lo, hi) of the destination slice relative to the blank block it was carved from; None when not derivable"""
+        t = strip_refs(t)
+        if depth > 8:
+            return None
+        if t[0] == "call" and t[1]:
+            nm = t[1].split("::")[-1]
+            if nm == "blank_mut":
+                return (0, 512)
+            if nm in ("deref_mut", "deref", "as_mut_slice", "as_mut") and t[2]:
+                return byte_range(t[2][0], at, depth + 1)
+            if nm in ("index_mut", "index") and len(t[2]) == 2:
+                base = byte_range(t[2][0], at, depth + 1)
+                r = strip_refs(t[2][1])
+                if base is None or r[0] != "agg" or not r[2]:
+                    return None
+                ends = [offset_at(x, at) for x in r[3]]
+                if r[2].endswith(("ops::Range", "Range::Range")) and len(ends) == 2 and None not in ends:
+                    return (base[0] + ends[0], base[0] + ends[1])
+                if r[2].endswith(("RangeTo", "RangeTo::RangeTo")) and len(ends) == 1 and ends[0] is not None:
+                    return (base[0], base[0] + ends[0])
+                if r[2].endswith(("RangeFrom", "RangeFrom::RangeFrom")) and len(ends) == 1 and ends[0] is not None:
+                    return (base[0] + ends[0], base[1])
+                return None
+        flds = [e for e in t[2] if e != "*"] if t[0] == "place" else []
+        if t[0] == "place" and flds in (["0"], ["1"]) and strip_refs(t[1])[0] == "call" and (strip_refs(t[1])[1] or "").endswith("split_at_mut"):
+            c = strip_refs(t[1])
+            base = byte_range(c[2][0], at, depth + 1)
+            k = offset_at(c[2][1], at)
+            if base is None or k is None:
+                return None
+            return (base[0], base[0] + k) if flds == ["0"] else (base[0] + k, base[1])
+        if t[0] == "place" and all(e == "*" for e in t[2]):
+            return byte_range(t[1], at, depth + 1)
+        if t[0] == "var":
+            ds = var_def_terms(fn, t[1])
+            rs = {byte_range(d, at, depth + 1) for d in ds}
+            return rs.pop() if len(rs) == 1 else None
+        return None
+
+    def offset_at(x, at):
+        """value of an offset expression at block `at`: constants fold; a counter local (0, then += 32) takes the value of
+        its definition that dominates `at` latest"""
+        v = _fold(x)
+        if v is not None:
+            return v
+        x = strip_refs(x)
+        if x[0] == "var":
+            best = None
+            for d in fn.defs().get(x[1], []):
+                if d[0] == "assign" and fn.dominates(d[1], at) and (best is None or fn.dominates(best[1], d[1])):
+                    best = d
+            if best is not None:
+                rv = strip_refs(fn.term_of_rvalue(best[3], best[1]))
+                if rv[0] == "bin" and rv[1] in ("Add", "AddWithOverflow") and strip_refs(rv[2]) == x:
+                    prev = None
+                    for d in fn.defs().get(x[1], []):
+                        if d is not best and d[0] == "assign" and fn.dominates(d[1], best[1]):
+                            prev = _fold(fn.term_of_rvalue(d[3], d[1]))
+                    inc = _fold(rv[3])
+                    return prev + inc if prev is not None and inc is not None else None
+                return _fold(rv)
+        if x[0] == "bin" and x[1] in ("Add", "AddWithOverflow"):
+            a_, b_ = offset_at(x[2], at), offset_at(x[3], at)
+            return a_ + b_ if a_ is not None and b_ is not None else None
+        return None
     okpl = len(cps) == 2 and fn.dominates(cps[0][0], cps[1][0])
+    ranges = []
     if okpl:
-        offv = None
-        d0 = fn.term_of_operand(cps[0][1]["args"][0], cps[0][0])
-        r0 = find_sub(d0, ("agg", "Range", ["$a", "$b"]))
-        okpl = r0 is not None and tstr(r0["$b"]).endswith("0x20)") or (r0 is not None and "LEN" in tstr(r0["$b"]))
-        # the offset variable: initial 0, += 32 once between the two copies
-        if r0 is not None and strip_refs(r0["$a"])[0] == "var":
-            defs0 = [tstr(d) for d in var_def_terms(fn, strip_refs(r0["$a"])[1])]
-            okpl = okpl and sorted(defs0) == sorted(["0", "Add(offset, LEN=0x20)"])
-    R.require(okpl, fn, "placement", "'.' and '..' must be stored at bytes 0..32 and 32..64 of the first block", fn.loc(0))
+        for (cb_, ct_) in cps:
+            ranges.append(byte_range(fn.term_of_operand(ct_["args"][0], cb_), cb_))
+        # which entry goes where: the '.' literal's serialisation first
+        src0, src1 = tstr(fn.term_of_operand(cps[0][1]["args"][1], cps[0][0])), tstr(fn.term_of_operand(cps[1][1]["args"][1], cps[1][0]))
+        okpl = ranges == [(0, 32), (32, 64)] and "this_dir" in src0 and "parent_dir" in src1
+    R.require(okpl, fn, "placement", "'.' and '..' must be stored at bytes 0..32 and 32..64 of the first block; destinations %s" % ranges, fn.loc(0))
     # caller passes the directory attribute
     mk = F.fn(VM + "::make_dir_in_dir")
     for b, t in mk.calls():
